@@ -40,6 +40,7 @@ func checkC12(c *Ctx) {
 		c.checkCase(ruleP2, g, sp)
 	}
 	c.ackAcceptsTypes()
+	c.waitAcceptsRequests()
 	c.terminalTables()
 	c.releaseLoopContract("C12")
 	c.queueIndexRules()
